@@ -485,10 +485,18 @@ class PrintNode(visitor.Visitor):
         return ".."
 
     def visit_BinaryOp(self, node):
-        return self.visit(node.left) + node.op + self.visit(node.right)
+        left = self.visit(node.left)
+        right = self.visit(node.right)
+        if right[0] in "+-":
+            # Keep the operators apart: 1 - -1 must not become 1--1.
+            right = "(" + right + ")"
+        return left + node.op + right
 
     def visit_UnaryOp(self, node):
-        return node.op + self.visit(node.node)
+        operand = self.visit(node.node)
+        if operand[0] in "+-":
+            operand = "(" + operand + ")"
+        return node.op + operand
 
     def visit_ParenExpr(self, node):
         return "(" + self.visit(node.node) + ")"
